@@ -134,3 +134,76 @@ def install_primitive_monitors():
     for nm in ("__and__", "__or__", "__xor__", "__invert__", "__lshift__", "__rshift__", "concat",
                "get_higher_bits", "get_lower_bits"):
         wrap_bits(nm)
+
+
+class YieldInjector:
+    """Context manager: inside it, every statement of the repository files under `subdirs` may hand the GIL to another
+    thread (sys.monitoring LINE events + a very short switch interval). It manufactures no interleaving CPython
+    threads cannot have - a thread switch is possible between any two bytecodes - it only makes the rare ones common.
+    Lines of all other files are disabled at their first event, so the cost stays on the code under test."""
+
+    def __init__(self, repo, subdirs=("toolkit",), every=3):
+        self.prefixes = tuple(os.path.join(os.path.realpath(repo), d) + os.sep for d in subdirs)
+        self.every = every
+        self.yields = 0
+        self.lines = 0
+        self.ok = False
+
+    def __enter__(self):
+        import time
+        mon = getattr(sys, "monitoring", None)
+        self._old_interval = sys.getswitchinterval()
+        sys.setswitchinterval(1e-6)
+        if mon is None:
+            return self
+        self.tool = mon.DEBUGGER_ID
+        try:
+            mon.use_tool_id(self.tool, "verif-yield")
+        except ValueError:
+            return self
+        self.ok = True
+        prefixes, every = self.prefixes, self.every
+
+        def on_line(code, line):
+            if not code.co_filename.startswith(prefixes):
+                return mon.DISABLE
+            self.lines += 1
+            if self.lines % every == 0:
+                self.yields += 1
+                time.sleep(0)
+
+        mon.register_callback(self.tool, mon.events.LINE, on_line)
+        mon.set_events(self.tool, mon.events.LINE)
+        return self
+
+    def __exit__(self, *exc):
+        sys.setswitchinterval(self._old_interval)
+        if self.ok:
+            mon = sys.monitoring
+            mon.set_events(self.tool, 0)
+            mon.register_callback(self.tool, mon.events.LINE, None)
+            mon.free_tool_id(self.tool)
+        return False
+
+
+def run_threads(workers, timeout=120):
+    """Run the callables in threads; returns the list of exceptions that escaped (a watchdog expiry is reported as
+    TimeoutError and is inconclusive, not a verdict)."""
+    import threading
+    errors = []
+
+    def wrap(fn):
+        def go():
+            try:
+                fn()
+            except BaseException as e:  # noqa
+                errors.append(e)
+        return go
+    ts = [threading.Thread(target=wrap(w), daemon=True) for w in workers]
+    for t in ts:
+        t.start()
+    for t in ts:
+        t.join(timeout)
+        if t.is_alive():
+            errors.append(TimeoutError("worker thread still running"))
+    return errors
